@@ -158,6 +158,13 @@ fn fixtures() -> Fx {
         std::fs::write(&p, bytes).unwrap();
         syn.push((p, *off));
     }
+    // two files whose paths differ only in the middle
+    for (sub, off) in [("a", 6 * 3600 + 7i32), ("b", -(6 * 3600 + 7))] {
+        let _ = std::fs::create_dir_all(format!("{}/{}", cwd, sub));
+        let p = format!("{}/{}/z.tzif", cwd, sub);
+        std::fs::write(&p, tzif_v2(off, "SYM", &posix_fixed("SYM", off))).unwrap();
+        syn.push((p, off));
+    }
     let mut bad = vec![];
     let good = tzif_v2(3600, "BAD", "BAD-1");
     for (name, bytes) in [
@@ -237,13 +244,17 @@ impl Fx {
         for g in [
             "garbage", "Not/AZone", ":/nonexistent/zone", "/nonexistent", ":", "XYZ", "+3", "Asia", ":Asia",
             "XYZ-25", ":XYZ-3", " Asia/Tokyo", "Asia/Tokyo ", "asia/tokyo", "::Asia/Tokyo",
-            "XYZ-3,", "\u{e9}t\u{e9}",
+            "XYZ-3,", "\u{e9}t\u{e9}", "localtimeX", "localtim", "Localtime", "localtime ", " localtime", "XYZ-3 4",
+            "XY-3", "XYZ--3", "../../../nonexistent", ":../../../nonexistent",
         ] {
             p.push(mk(g.to_string(), "garbage", Some(self.sys_expect)));
         }
         // exists on some systems as a link to /etc/localtime: no independent expectation
         p.push(mk(":localtime".into(), "other", None));
         p.push(mk("posixrules".into(), "other", None));
+        p.push(mk(" ".into(), "other", None));
+        p.push(mk("/etc/localtime".into(), "abs-path", Some(self.sys_expect)));
+        p.push(mk(":/etc/localtime".into(), "colon-abs-path", Some(self.sys_expect)));
         for b in &self.bad {
             p.push(mk(b.clone(), "bad-file", Some(self.sys_expect)));
             p.push(mk(format!(":{}", b), "colon-bad-file", Some(self.sys_expect)));
@@ -498,6 +509,10 @@ fn judge(c: &mut Ctx, fx: &Fx, steps: &[St], evs: &[Ev], tag: &str) {
     let mut outs: Vec<String> = vec![];
     let mut tracks: BTreeMap<usize, Track> = BTreeMap::new();
     let mut cur: Option<&TzVal> = None; // None = TZ as the process started: unset
+    // offsets of every zone TZ has named so far (None once a value without expectation was set)
+    let mut named_so_far: Option<Vec<i64>> = Some(vec![fx.sys_expect]);
+    // the TZ token under which each thread's cache was last (re)built or re-checked
+    let mut fresh_tok: BTreeMap<usize, String> = BTreeMap::new();
     let mut prev_mid: Option<u64> = None;
     let mut ei = 0;
     for (i, s) in steps.iter().enumerate() {
@@ -505,10 +520,18 @@ fn judge(c: &mut Ctx, fx: &Fx, steps: &[St], evs: &[Ev], tag: &str) {
             St::Set(v) => {
                 cur = Some(v);
                 toks.push(format!("S{}", v.tok()));
+                named_so_far = match (named_so_far, v.expect) {
+                    (Some(mut xs), Some(e)) => {
+                        xs.push(e);
+                        Some(xs)
+                    }
+                    _ => None,
+                };
             }
             St::Wait(_) => {}
             St::Spawn(t) => {
                 tracks.remove(t);
+                fresh_tok.remove(t);
                 toks.push(format!("T{}", t));
             }
             St::Conv(t, l) => {
@@ -570,6 +593,24 @@ fn judge(c: &mut Ctx, fx: &Fx, steps: &[St], evs: &[Ev], tag: &str) {
                         c.count(&format!("{}.fresh-kind.{}", tag, v.kind));
                     }
                 }
+                // "no single conversion mixes two zones": the answer is the offset of ONE zone that
+                // TZ named at some point of this history (or the system zone)
+                if let Some(xs) = &named_so_far {
+                    if !xs.iter().any(|x| x.to_string() == e.res) {
+                        c.fail(
+                            "C18 a conversion answered with an offset that no zone named so far has",
+                            &format!("history [{}] step {}: got {}, zones named so far have {:?}", encode(steps), i, e.res, xs),
+                        );
+                    }
+                }
+                let tok_now = cur.map(|v| v.tok()).unwrap_or("-".into());
+                if cls == 'f' {
+                    let same = fresh_tok.get(t) == Some(&tok_now);
+                    c.count(&format!("{}.refresh.{}", tag, if same { "same-value(recheck)" } else { "changed-value(reload)" }));
+                }
+                if cls == 'n' || cls == 'f' {
+                    fresh_tok.insert(*t, tok_now);
+                }
                 if e.res == "panic" || e.res == "thread-died" {
                     c.fail("C18 conversion panicked", &format!("history [{}] step {}", encode(steps), i));
                 }
@@ -599,7 +640,7 @@ fn gen_timed(c: &mut Ctx, fx: &Fx, k: usize) -> Vec<St> {
     let unset = TzVal { v: None, kind: "unset", expect: Some(fx.sys_expect) };
     let l = |c: &mut Ctx| c.rng.chance(1, 2);
     use St::*;
-    match k % 12 {
+    match k % 14 {
         // stale inside the window, honoured after it
         0 => vec![Set(a), Conv(0, l(c)), Set(b), Wait(150), Conv(0, l(c)), Wait(1100), Conv(0, l(c))],
         // a new thread sees the change at once, the old thread does not
@@ -620,6 +661,23 @@ fn gen_timed(c: &mut Ctx, fx: &Fx, k: usize) -> Vec<St> {
         8 => vec![Set(a.clone()), Conv(0, l(c)), Set(b), Wait(150), Set(a), Wait(1100), Conv(0, l(c)), Conv(0, l(c))],
         // usable -> unusable after the window
         9 => vec![Set(a), Conv(0, l(c)), Set(any), Wait(1100), Conv(0, l(c))],
+        // a -> b -> a, each honoured after the window (the recorded source must follow the zone)
+        10 => vec![Set(a.clone()), Conv(0, l(c)), Set(b), Wait(1100), Conv(0, l(c)), Set(a), Wait(1100), Conv(0, l(c))],
+        // values that differ in one character only (end / middle of the string): the source
+        // comparison must see the whole value
+        11 => {
+            let mk = |s: &str, e: i64| TzVal { v: Some(s.as_bytes().to_vec()), kind: "near-twin", expect: Some(e) };
+            let n = fx.syn.len();
+            let pairs = [
+                (mk(&fx.syn[0].0, fx.syn[0].1 as i64), mk(&fx.syn[1].0, fx.syn[1].1 as i64)),
+                (mk(&fx.syn[n - 2].0, fx.syn[n - 2].1 as i64), mk(&fx.syn[n - 1].0, fx.syn[n - 1].1 as i64)),
+                (mk("QRS-4", 14400), mk("QRS-5", 18000)),
+                (mk("QRS-4", 14400), mk("QRS-4:01", 14460)),
+            ];
+            let (x, y) = pairs[(k / 14) % pairs.len()].clone();
+            let (x, y) = if l(c) { (x, y) } else { (y, x) };
+            vec![Set(x), Conv(0, l(c)), Set(y), Wait(1100), Conv(0, l(c))]
+        }
         _ => {
             let mut steps = vec![Set(pickv(c, &pool).clone())];
             let mut threads = 1usize;
@@ -665,6 +723,139 @@ fn gen_fast(c: &mut Ctx, fx: &Fx, pool: &[TzVal]) -> Vec<St> {
         }
     }
     steps
+}
+
+// ------------------------------------------------------------------------------------ directions
+fn show_m(m: MappedLocalTime<i32>) -> String {
+    match m {
+        MappedLocalTime::Single(o) => o.to_string(),
+        MappedLocalTime::Ambiguous(a, b) => format!("amb({},{})", a, b),
+        MappedLocalTime::None => "none".to_string(),
+    }
+}
+
+fn direction_oracles(c: &mut Ctx, fx: &Fx) {
+    // (TZ value, the zone it names, built without chrono's selection code)
+    let mut zones: Vec<(String, vt::Zone)> = vec![];
+    for (n, _) in &fx.real {
+        if let Some(z) = std::fs::read(format!("{}/{}", TZDB, n)).ok().and_then(|b| vt::from_tzif(&b).ok()) {
+            zones.push((n.to_string(), z));
+        }
+        if let Some(z) = std::fs::read(format!("{}/{}", TZDB, n)).ok().and_then(|b| vt::from_tzif(&b).ok()) {
+            zones.push((format!(":{}", n), z));
+        }
+    }
+    for r in ["EST5EDT,M3.2.0,M11.1.0", "AAA-2BBB,M3.5.0,M10.5.0", "XYZ-3", "NZST-12NZDT,M9.5.0,M4.1.0/3"] {
+        if let Ok(z) = vt::from_tzif(&tzif_v2(0, "UTC", r)) {
+            zones.push((r.to_string(), z));
+        }
+    }
+    for (p, _) in fx.syn.iter().take(3) {
+        if let Some(z) = std::fs::read(p).ok().and_then(|b| vt::from_tzif(&b).ok()) {
+            zones.push((p.clone(), z));
+        }
+    }
+    // wall-clock / UTC readings: mid-winter, mid-summer, and every half hour of the days on which
+    // the zones above change (2024-03-10, 03-31, 04-07, 09-29, 10-06, 10-27, 11-03), plus random ones
+    let mut dts: Vec<NaiveDateTime> = vec![];
+    for (m, d) in [(1u32, 15u32), (7, 15), (3, 10), (3, 31), (4, 7), (9, 29), (10, 6), (10, 27), (11, 3)] {
+        for h in 0..24 {
+            for mi in [0u32, 30] {
+                dts.push(NaiveDate::from_ymd_opt(2024, m, d).unwrap().and_hms_opt(h, mi, 0).unwrap());
+            }
+        }
+    }
+    for _ in 0..c.n(50, 2000) {
+        let t = c.rng.range(-2_000_000_000, 4_000_000_000);
+        dts.push(chrono::DateTime::from_timestamp(t, 0).unwrap().naive_utc());
+    }
+    for (tz, zone) in &zones {
+        std::env::set_var("TZ", tz);
+        let dts2 = dts.clone();
+        // everything on one fresh thread: its cache is built now, under this TZ
+        #[allow(deprecated)]
+        let got: Vec<(String, String, String, String)> = std::thread::spawn(move || {
+            dts2.iter()
+                .map(|d| {
+                    (
+                        gs(|| Local.offset_from_utc_datetime(d), |o| o.local_minus_utc().to_string()),
+                        gs(|| Local.offset_from_local_datetime(d), |m| show_m(m.map(|o| o.local_minus_utc()))),
+                        gs(|| Local.from_utc_datetime(d), |x| format!("{} {}", x.offset().local_minus_utc(), x.naive_utc() == *d)),
+                        gs(
+                            || Local.from_local_datetime(d),
+                            |m| match m {
+                                MappedLocalTime::Single(x) => format!("{} {}", x.offset().local_minus_utc(), x.naive_local() == *d),
+                                MappedLocalTime::Ambiguous(a, b) => format!(
+                                    "amb({},{}) {}",
+                                    a.offset().local_minus_utc(),
+                                    b.offset().local_minus_utc(),
+                                    a.naive_local() == *d && b.naive_local() == *d
+                                ),
+                                MappedLocalTime::None => "none".to_string(),
+                            },
+                        ),
+                    )
+                })
+                .collect()
+        })
+        .join()
+        .unwrap_or_default();
+        if got.len() != dts.len() {
+            c.fail("C18 conversion thread died", tz);
+            continue;
+        }
+        for (d, g) in dts.iter().zip(got) {
+            let want_u = zone.offset_at(d.and_utc().timestamp()).map(|x| x.0.to_string()).unwrap_or("panic".into());
+            let want_l = zone.offsets_for_local(*d).map(show_m).unwrap_or("panic".into());
+            c.count(&format!("direction.local-result.{}", if want_l.starts_with("amb") { "ambiguous" } else if want_l == "none" { "none" } else { "single" }));
+            if want_u != want_l {
+                c.count("direction.readings-where-directions-differ");
+            }
+            if g.0 != want_u {
+                c.fail("C18 Local.offset_from_utc_datetime is not the named zone's answer for that instant", &format!("TZ={:?} utc={} got {} want {}", tz, d, g.0, want_u));
+            }
+            if g.1 != want_l {
+                c.fail("C18 Local.offset_from_local_datetime is not the named zone's answer for that wall-clock time", &format!("TZ={:?} local={} got {} want {}", tz, d, g.1, want_l));
+            }
+            if g.2 != format!("{} true", want_u) {
+                c.fail("C18 Local.from_utc_datetime does not keep the instant / use the zone's offset", &format!("TZ={:?} utc={} got {} want {}", tz, d, g.2, want_u));
+            }
+            let want_fl = if want_l == "none" { "none".to_string() } else { format!("{} true", want_l) };
+            if g.3 != want_fl {
+                c.fail("C18 Local.from_local_datetime does not keep the wall-clock time / use the zone's offsets", &format!("TZ={:?} local={} got {} want {}", tz, d, g.3, want_fl));
+            }
+        }
+        // the deprecated date forms read the offset at midnight, and `now()` uses the zone at "now"
+        #[allow(deprecated)]
+        for (m, dd) in [(1u32, 15u32), (3, 10), (7, 15), (11, 3)] {
+            let date = NaiveDate::from_ymd_opt(2024, m, dd).unwrap();
+            let mid = date.and_hms_opt(0, 0, 0).unwrap();
+            let (gu, gl) = std::thread::spawn(move || {
+                (
+                    gs(|| Local.offset_from_utc_date(&date), |o| o.local_minus_utc().to_string()),
+                    gs(|| Local.offset_from_local_date(&date), |m| show_m(m.map(|o| o.local_minus_utc()))),
+                )
+            })
+            .join()
+            .unwrap_or_default();
+            let want_u = zone.offset_at(mid.and_utc().timestamp()).map(|x| x.0.to_string()).unwrap_or("panic".into());
+            let want_l = zone.offsets_for_local(mid).map(show_m).unwrap_or("panic".into());
+            if gu != want_u || gl != want_l {
+                c.fail("C18 Local.offset_from_*_date is not the named zone's answer at midnight", &format!("TZ={:?} date={} got {} / {} want {} / {}", tz, date, gu, gl, want_u, want_l));
+            }
+        }
+        let now = std::thread::spawn(|| gs(Local::now, |x| format!("{} {}", x.timestamp(), x.offset().local_minus_utc()))).join().unwrap_or_default();
+        let mut it = now.split(' ');
+        if let (Some(ts), Some(off)) = (it.next().and_then(|x| x.parse::<i64>().ok()), it.next()) {
+            let want = zone.offset_at(ts).map(|x| x.0.to_string()).unwrap_or("panic".into());
+            if off != want {
+                c.fail("C18 Local::now() does not carry the named zone's offset", &format!("TZ={:?} ts={} got {} want {}", tz, ts, off, want));
+            }
+        } else {
+            c.fail("C18 Local::now() panicked", tz);
+        }
+        c.count("direction.zones");
+    }
 }
 
 // ------------------------------------------------------------------------------------ entry
@@ -821,10 +1012,16 @@ pub fn run(c: &mut Ctx) {
     }
     std::env::remove_var("TZ");
 
+    // ---- 3b. direction and routing of the public conversions (mod.rs): what `Local` answers on a
+    // fresh thread is what the zone TZ names answers through the hook, in the same direction, also
+    // next to transitions (gap, fold) where the two directions differ
+    direction_oracles(c, &fx);
+    std::env::remove_var("TZ");
+
     // ---- 4. timed histories in child processes --------------------------------------------------
-    let n = c.n(24, 400);
+    let n = c.n(28, 400);
     let hists: Vec<Vec<St>> = (0..n).map(|k| gen_timed(c, &fx, k)).collect();
-    let par = c.n(24, 50);
+    let par = c.n(28, 50);
     run_children(c, &fx, hists, par);
     let _ = std::fs::remove_dir_all(std::env::current_dir().unwrap().join("c18fx"));
 }
